@@ -40,10 +40,12 @@ def main() -> int:
         with open(a.replay) as f:
             v = json.load(f)
         want = str(v.get("hashseed") or "")
-        if want and os.environ.get("PYTHONHASHSEED") != want and not os.environ.get("VF_REEXEC"):
-            # replay under the hash seed the violation was observed with
-            env = dict(os.environ, PYTHONHASHSEED=want, VF_REEXEC="1")
-            os.execve(sys.executable, [sys.executable, "-m", "vf.main", *sys.argv[1:]], env)
+        want_opt = int(v.get("optimize") or 0)
+        if ((want and os.environ.get("PYTHONHASHSEED") != want) or want_opt != sys.flags.optimize) \
+                and not os.environ.get("VF_REEXEC"):
+            # replay under the hash seed and the interpreter optimisation level the violation was observed with
+            env = dict(os.environ, PYTHONHASHSEED=want or os.environ.get("PYTHONHASHSEED", "0"), VF_REEXEC="1")
+            os.execve(sys.executable, [sys.executable, *(["-O"] if want_opt else []), "-m", "vf.main", *sys.argv[1:]], env)
         ctx.replaying = True
         ctx.classifier = None  # a replay reports whatever it reproduces
         ctx.current_case = v.get("case")
